@@ -167,14 +167,17 @@ Definition gomacro_rejects_index (k : ckind) (i : option Z) : bool :=
   | KConstString n, Some c => negb (in_range c n)
   | _, _ => false
   end.
-(* fast/slice.go sliceIndex: a negative constant bound is rejected; constant string with constant bounds is folded *)
+(* Encoding of a bound: Some c = the constant c; None = NOT a constant (a variable operand).  An absent bound is given as
+   the constant it stands for - lo: 0, hi: the length when the kind has a known length (array, pointer to array,
+   constant string) - and as None otherwise (absent max, absent hi of a slice / non-constant string).
+   fast/slice.go sliceIndex: a negative constant bound is rejected.  SliceExpr folds (EvalConst) - and so rejects
+   out-of-range bounds at compile time - only when the string AND every bound that is present are constants:
+   "abc"[4:] is rejected, "abc"[4:i] and "abc"[i:5] are compiled and panic at run time. *)
 Definition neg_const (o : option Z) : bool := match o with Some c => c <? 0 | None => false end.
 Definition gomacro_rejects_slice (k : ckind) (lo hi max : option Z) : bool :=
   neg_const lo || neg_const hi || neg_const max ||
   match k, lo, hi with
   | KConstString n, Some l, Some h => negb (bounds_ok l h n n)
-  | KConstString n, None, Some h => negb (bounds_ok 0 h n n)
-  | KConstString n, Some l, None => negb (bounds_ok l n n n)
   | _, _, _ => false
   end.
 
